@@ -250,6 +250,10 @@ func checkC13(c Case) *Failure {
 		return &Failure{Sig: "C13/parse", Expected: "parses", Observed: fmt.Sprint(text, err, pan)}
 	}
 	o := implQuery(p, doc, runCfg{vars: vars})
+	// an operation that fails is not an existing item either (Exists shares the arithmetic)
+	if e := implExists(p, doc, runCfg{vars: vars}); o.Class == "soft" && e.Class == "ok" && e.Bool {
+		return &Failure{Sig: "C13/exists-true-for-failing-operation/" + op, Expected: "Exists not true (Query: " + o.String() + ")", Observed: e.String()}
+	}
 	ok, why := exp.admits(o)
 	if !ok {
 		kind := "binary"
